@@ -209,6 +209,16 @@ def traffic(kind, game, rnd):
     elif kind == "nmap":
         a.software_manager.software["nmap"].ping_scan(target_ip_address=[bip, bip.rsplit(".", 1)[0] + ".99"], show=False)
         a.software_manager.software["nmap"].port_scan(target_ip_address=bip, show=False)
+    elif kind == "recable":
+        # unplug the oldest cable and plug the same two interfaces together again (the topology API of the container), then talk
+        links = list(net.links.values())
+        if len(links) >= 2 and rnd.random() < 0.7:
+            old = links[0]
+            ea, eb, bw = old.endpoint_a, old.endpoint_b, old.bandwidth
+            net.remove_link(old)
+            net.connect(ea, eb, bandwidth=bw)
+        a.ping(bip, pings=2)
+        b.ping(str(a.network_interface[1].ip_address), pings=1)
     elif kind == "toggle":
         nic = b.network_interface[1]
         nic.disable()
@@ -219,7 +229,7 @@ def traffic(kind, game, rnd):
         raise ValueError(kind)
 
 
-KINDS = ["ping", "ping-both", "arp-cold-ping", "db", "db-many", "web", "ftp", "dos", "nmap", "toggle"]
+KINDS = ["ping", "ping-both", "arp-cold-ping", "db", "db-many", "web", "ftp", "dos", "nmap", "toggle", "recable"]
 TOPOS = ["switch", "direct", "routed"]
 FACTORS = [0.3, 0.5, 0.6, 0.9, 1.0, 1.0000001, 1.5, 2.5]
 
